@@ -119,6 +119,7 @@ def rules(ck, P):
     # ---------------- build: union coverage, compression, format
     b = builds[0]
     comp.sources_in_list_order(ck, "R-FIRST", "overlay", b, adt)
+    comp.pyramid_union_rule(ck, P, "R-COVER-OPS")
     lets = comp.lets_of(b)
     sh_ = None
     for n in ir.walk_nodes(b["body"]):
